@@ -4368,6 +4368,11 @@ impl Handler {
             }
         }
 
+        // The executor runs one statement per logical line, so authorization must
+        // cover every line of the program, not only a program that happens to parse
+        // as a single statement.
+        self.authorize_program_lines(effective_auth, trimmed, current_kg)?;
+
         // Any session-bound activity should keep the session alive.
         // If the session was reaped (e.g., after WS reconnect), log and continue
         // rather than failing the query - the session state is lost but queries
@@ -4621,6 +4626,123 @@ impl Handler {
         }
 
         Ok(result)
+    }
+
+    /// Authorize every statement of a (possibly multi-statement) program.
+    ///
+    /// Segments the program exactly as `QueryJob::execute` does (comments stripped,
+    /// continuation lines joined, one statement per non-empty line) and applies the
+    /// global-role check, the `_internal` guard and the per-KG role check to each
+    /// statement, tracking `.kg use` / `.kg create` switches so that each statement
+    /// is checked against the knowledge graph it will act on. A line that does not
+    /// parse cannot be authorized: the program is rejected with the same validation
+    /// error the executor reports (fail closed).
+    fn authorize_program_lines(
+        &self,
+        identity: Option<&crate::auth::AuthIdentity>,
+        program: &str,
+        initial_kg: Option<&str>,
+    ) -> Result<(), String> {
+        let program_text = join_continuation_lines(&strip_comments(program));
+        let mut target: Option<String> = initial_kg.map(str::to_string);
+        let mut parse_errors: Vec<ValidationError> = Vec::new();
+        let mut stmt_index: usize = 0;
+        for (line_num, line) in program_text.lines().enumerate() {
+            let line = line.trim();
+            if line.is_empty() {
+                continue;
+            }
+            match statement::parse_statement(line) {
+                Ok(stmt) => {
+                    self.authorize_one_statement(identity, &stmt, target.as_deref())?;
+                    if let statement::Statement::Meta(
+                        statement::MetaCommand::KgUse(name)
+                        | statement::MetaCommand::KgCreate(name),
+                    ) = &stmt
+                    {
+                        target = Some(name.clone());
+                    }
+                }
+                Err(e) => parse_errors.push(ValidationError {
+                    line: line_num + 1,
+                    statement_index: stmt_index,
+                    error: e,
+                }),
+            }
+            stmt_index += 1;
+        }
+        if !parse_errors.is_empty() {
+            let errors_json = serde_json::to_string(&parse_errors).unwrap_or_default();
+            return Err(format!("{VALIDATION_ERROR_PREFIX}{errors_json}"));
+        }
+        Ok(())
+    }
+
+    /// Authorization of one parsed statement acting on `current_kg`.
+    fn authorize_one_statement(
+        &self,
+        identity: Option<&crate::auth::AuthIdentity>,
+        stmt: &statement::Statement,
+        current_kg: Option<&str>,
+    ) -> Result<(), String> {
+        let denied_internal = || {
+            format!(
+                "Access denied: '{}' is a system knowledge graph",
+                crate::auth::INTERNAL_KG
+            )
+        };
+        // Explicit commands on the system knowledge graph are refused for every caller
+        if let statement::Statement::Meta(
+            statement::MetaCommand::KgUse(name)
+            | statement::MetaCommand::KgDrop(name)
+            | statement::MetaCommand::KgCreate(name),
+        ) = stmt
+        {
+            if name == crate::auth::INTERNAL_KG {
+                return Err(denied_internal());
+            }
+        }
+        let Some(identity) = identity else {
+            return Ok(());
+        };
+        crate::auth::authorize_statement(&identity.role, stmt)?;
+        if identity.role == crate::auth::Role::Admin {
+            return Ok(());
+        }
+        if current_kg == Some(crate::auth::INTERNAL_KG) {
+            return Err(denied_internal());
+        }
+        let target_kg = match stmt {
+            statement::Statement::Meta(
+                statement::MetaCommand::KgDrop(name) | statement::MetaCommand::KgUse(name),
+            ) => Some(name.as_str()),
+            statement::Statement::Meta(
+                statement::MetaCommand::KgAclGrant { ref kg_name, .. }
+                | statement::MetaCommand::KgAclRevoke { ref kg_name, .. },
+            ) => Some(kg_name.as_str()),
+            statement::Statement::Meta(statement::MetaCommand::KgAclList(ref kg_opt)) => {
+                kg_opt.as_deref()
+            }
+            statement::Statement::Meta(
+                statement::MetaCommand::KgCreate(_)
+                | statement::MetaCommand::KgList
+                | statement::MetaCommand::KgShow
+                | statement::MetaCommand::Help
+                | statement::MetaCommand::Quit
+                | statement::MetaCommand::Status,
+            ) => None,
+            _ => current_kg,
+        };
+        if let Some(kg) = target_kg {
+            if kg == crate::auth::INTERNAL_KG {
+                return Err(denied_internal());
+            }
+            match self.get_kg_role_for_user(kg, &identity.username, &identity.role) {
+                Some(kg_role) => crate::auth::authorize_kg_operation(&kg_role, stmt)?,
+                None => return Err("Access denied".to_string()),
+            }
+        }
+        Ok(())
     }
 
     /// Build a single-message QueryResult
